@@ -174,6 +174,10 @@ pub struct ExecReq {
     pub heap_seed: u64,
     #[serde(default)]
     pub memo: Option<MemoSpec>,
+    /// run all steps on ONE thread (a long-lived host calling the library repeatedly);
+    /// default: a fresh thread per step
+    #[serde(default)]
+    pub same_thread: bool,
     pub steps: Vec<Step>,
 }
 
